@@ -73,12 +73,16 @@ func runModeTry(procs *[]Process, tryErr bool) (exitNum int) {
 
 			if next < len(*procs) {
 				if exitNum < 1 && (*procs)[next].OperatorLogicOr {
-					i++
-					(*procs)[i].SetTerminatedState(true)
-					(*procs)[i].Stdout.Close()
-					(*procs)[i].Stderr.Close()
-					GlobalFIDs.Deregister((*procs)[i].Id)
-					(*procs)[i].State.Set(state.AwaitingGC)
+					// a command skipped by `||` counts as succeeding, so every directly
+					// following `||` alternative is skipped as well
+					for i+1 < len(*procs) && (*procs)[i+1].OperatorLogicOr {
+						i++
+						(*procs)[i].SetTerminatedState(true)
+						(*procs)[i].Stdout.Close()
+						(*procs)[i].Stderr.Close()
+						GlobalFIDs.Deregister((*procs)[i].Id)
+						(*procs)[i].State.Set(state.AwaitingGC)
+					}
 					continue
 				}
 
@@ -120,12 +124,16 @@ func runModeTryPipe(procs *[]Process, tryPipeErr bool) (exitNum int) {
 		next := i + 1
 		if next < len(*procs) {
 			if exitNum < 1 && (*procs)[next].OperatorLogicOr {
-				i++
-				(*procs)[i].SetTerminatedState(true)
-				(*procs)[i].Stdout.Close()
-				(*procs)[i].Stderr.Close()
-				GlobalFIDs.Deregister((*procs)[i].Id)
-				(*procs)[i].State.Set(state.AwaitingGC)
+				// a command skipped by `||` counts as succeeding, so every directly
+				// following `||` alternative is skipped as well
+				for i+1 < len(*procs) && (*procs)[i+1].OperatorLogicOr {
+					i++
+					(*procs)[i].SetTerminatedState(true)
+					(*procs)[i].Stdout.Close()
+					(*procs)[i].Stderr.Close()
+					GlobalFIDs.Deregister((*procs)[i].Id)
+					(*procs)[i].State.Set(state.AwaitingGC)
+				}
 				continue
 			}
 
